@@ -102,7 +102,8 @@ func (f *formatter) formatList(nodes []ast.Vertex, separator byte) []*token.Toke
 func (f *formatter) formatStmts(list *[]ast.Vertex) {
 	var insertCounter int
 
-	for i, stmt := range *list {
+	// walk a copy: insert may shift *list in place while it is being walked
+	for i, stmt := range append([]ast.Vertex(nil), *list...) {
 		f.lastSemiColon = nil
 
 		if _, ok := stmt.(*ast.StmtInlineHtml); ok {
